@@ -709,6 +709,12 @@ impl Log {
 						let (file, record_id) = Self::open_log_file(&path)?;
 						if let Some(record_id) = record_id {
 							log::debug!(target: "parity-db", "Opened log {}, record {}", nlog, record_id);
+							if options.sync_wal {
+								// The previous process may have been stopped before it synced this
+								// file. Its records are about to be applied to the tables: as in
+								// normal operation, they have to be on disk first.
+								try_io!(file.sync_data());
+							}
 							logs.push_back((nlog, record_id, file));
 							if nlog > max_log_id {
 								max_log_id = nlog
